@@ -140,16 +140,19 @@ structure FieldDecl where
 
 inductive InitExpr where
   | param (name : String)
-  | tupleOf (name : String)
+  /-- `tuple(name)`; for an optional array `tuple(name) if name is not None else None` -/
+  | tupleOf (name : String) (optional : Bool)
   | strLit (s : String)
   /-- the hard-coded text of a *named* non-string field, pasted into `__init__` as Python source -/
   | pasted (text : String)
+  /-- `True` / `False` for a named hard-coded bool -/
+  | boolLit (b : Bool)
   deriving DecidableEq, Repr, Inhabited
 
 inductive InitStmt where
   | assign (attr : String) (e : InitExpr)
-  /-- `self._len = len(self._of)` -/
-  | lenOf (lenAttr : String) (ofAttr : String)
+  /-- `self._len = len(self._of)`; for an optional field `… if self._of is not None else None` -/
+  | lenOf (lenAttr : String) (ofAttr : String) (optional : Bool)
   deriving DecidableEq, Repr, Inhabited
 
 structure Param where
